@@ -21,23 +21,25 @@ def run(prog: Program, rep: Report):
     im = prog.cls("ImmutIntervalMap", MAPS_MOD)
     rep.rule("C16.R1", "the Overlaps relation is exact for closed intervals (all weak orderings of four endpoints with "
              "start <= end)", floor=1)
-    relation_formula_check(prog, rep, "C16.R1", "SpanSetOverlapsEqRelation")
-    r2_construction(prog, rep, im)
-    r3_lookup(prog, rep, im)
-    r4_derived(prog, rep, im)
+    rep.attempt(lambda: relation_formula_check(prog, rep, "C16.R1", "SpanSetOverlapsEqRelation"))
+    rep.attempt(lambda: r2_construction(prog, rep, im))
+    rep.attempt(lambda: r3_lookup(prog, rep, im))
+    rep.attempt(lambda: r4_derived(prog, rep, im))
     # disjointness is decided by building a SpanSet: the constructor's "keep a span iff no span kept so far matches" clause (and the
     # argument roles of its relation calls) is part of this property
     from .c10 import SPAN_MOD, r2_sites
-    r2_sites(prog, rep, prog.cls("SpanSet", SPAN_MOD), rule="C16.R5", floor=3)
+    rep.attempt(lambda: r2_sites(prog, rep, prog.cls("SpanSet", SPAN_MOD), rule="C16.R5", floor=3))
     from .memo import public_entry_points, rule_derived_state
     from .ownership import rule_no_class_state
     roles = interval_roles(prog.method_view(im, "__init__"))
     prim = {v.split(".", 1)[1] for v in roles.values() if v.startswith("self.")}
-    rule_derived_state(prog, rep, "C16.R6", im, prim, public_entry_points(prog, im),
+    rep.attempt(lambda: rule_derived_state(prog, rep, "C16.R6", im, prim, public_entry_points(prog, im),
                        what="the map is immutable: a remembered key or value (a one-entry look-up memo) is derived from the look-up "
                             "argument, not from the map, and is handled by the look-up rules; this instance only guards fields derived "
-                            "from the arrays")
-    rule_no_class_state(prog, rep, "C16.R7", [im])
+                            "from the arrays"))
+    rep.attempt(lambda: rule_no_class_state(prog, rep, "C16.R7", [im]))
+    from .mixins import rule_fresh_iterator
+    rep.attempt(lambda: rule_fresh_iterator(prog, rep, "C16.R8", [im]))
 
 
 def _raises(stmts) -> Optional[str]:
@@ -86,6 +88,7 @@ def r2_construction(prog, rep: Report, im):
                        f"invalid interval raises {exc}, not KeyError"),
                       scenario="a degenerate single-point interval (5, 5) is rejected, or a reversed interval is accepted",
                       line=first.lineno)
+    _early_exits(prog, rep, f, mapping, loop)
     # recording: starts/ends/values appended in the same iteration from (start, end, value)
     apps = {}
     for st in loop.body:
@@ -167,6 +170,90 @@ def r2_construction(prog, rep: Report, im):
         else:
             rep.viol("C16.R2", f, "disjointness:length-test", "the span set is never compared with the number of intervals",
                      scenario="overlapping intervals are accepted")
+
+
+def _early_exits(prog, rep: Report, f: Func, mapping: str, loop: ast.For):
+    """no construction by-passes the checks: a `return` of __init__ that is not behind the validity loop is evaluated for maps of
+    0, 1, 2 and 3 intervals (its guards read as formulas over len(mapping)); taking it with >= 1 interval skips the start <= end test
+    (and, with >= 2, the disjointness test)"""
+    from .cachefam import _eval_small
+    rets = [r for r in walk_own(f.node) if isinstance(r, ast.Return)]
+    early = []
+    for r in rets:
+        # position: inside / after the validity loop?
+        anc, inside = r, False
+        while anc is not None and anc is not f.node:
+            if anc is loop:
+                inside = True
+            anc = getattr(anc, "_parent", None)
+        if inside:
+            continue
+        top = r
+        while getattr(top, "_parent", None) is not None and top._parent is not f.node:
+            top = top._parent
+        if top in f.node.body and loop in f.node.body and f.node.body.index(top) > f.node.body.index(loop):
+            continue                      # after the loop: every interval went through the validity test
+        early.append(r)
+    if not early:
+        rep.ok("C16.R2", f, "validated-exits", "no exit of __init__ ahead of the validity loop")
+        return
+    for r in early:
+        guards, undecidable = [], None
+        child, anc = r, getattr(r, "_parent", None)
+        while anc is not None and anc is not f.node:
+            if isinstance(anc, ast.If):
+                guards.append((anc.test, child in anc.body))
+            elif not isinstance(anc, ast.If):
+                undecidable = type(anc).__name__
+            child, anc = anc, getattr(anc, "_parent", None)
+        if undecidable or not guards:
+            rep.unrec("C16.R2", f, "validated-exits", f"`return` at line {r.lineno} ahead of the validity loop "
+                      f"({'inside a ' + undecidable if undecidable else 'unconditional'})", line=r.lineno)
+            return
+        taken, unknown = [], False
+        for n in (0, 1, 2, 3):
+            env = {f"len({mapping})": n, mapping: None}
+            vals = []
+            for t, pol in guards:
+                t2 = _LenSubst(mapping, n).visit(ast.parse(src(t), mode="eval").body)
+                v = _eval_small(t2, {})
+                vals.append(None if v is None else (bool(v) == pol))
+            if any(v is False for v in vals):
+                continue
+            if any(v is None for v in vals):
+                unknown = True
+                continue
+            taken.append(n)
+        bad = [n for n in taken if n >= 1]
+        if bad:
+            n = bad[0]
+            rep.viol("C16.R2", f, "validated-exits", f"a map of {n} interval(s) is constructed through the `return` at line {r.lineno} "
+                     f"(guard `{' and '.join(('' if pol else 'not ') + src(t) for t, pol in guards)}`) without "
+                     + ("the start <= end test" if n == 1 else "the validity and disjointness tests"),
+                     scenario="ImmutIntervalMap({(3, 2): 'x'}) constructs instead of raising KeyError", line=r.lineno)
+            return
+        if unknown:
+            rep.unrec("C16.R2", f, "validated-exits", f"cannot decide for which numbers of intervals the `return` at line {r.lineno} "
+                      f"is taken (guards {[src(t) for t, _ in guards]})", line=r.lineno)
+            return
+    rep.ok("C16.R2", f, "validated-exits", f"{len(early)} early exit(s), taken only by the empty map")
+
+
+class _LenSubst(ast.NodeTransformer):
+    """len(<mapping>) -> n;  `not <mapping>` / bare `<mapping>` as a truth value -> (n == 0) / (n != 0)"""
+
+    def __init__(self, mapping, n):
+        self.m, self.n = mapping, n
+
+    def visit_Call(self, node):
+        if isinstance(node.func, ast.Name) and node.func.id == "len" and len(node.args) == 1 and src(node.args[0]) == self.m:
+            return ast.Constant(self.n)
+        return self.generic_visit(node)
+
+    def visit_Name(self, node):
+        if node.id == self.m:
+            return ast.Constant(self.n != 0)      # only reached in truth-value positions of a guard
+        return node
 
 
 def interval_roles(init: Func) -> Dict[str, str]:
